@@ -4042,15 +4042,10 @@ async fn run_rtp_direct_loop(
             }
             crate::transports::ice::IceTransportState::Closed => {
                 if let Some(inner) = inner_weak.upgrade() {
-                    let _ = inner.disconnect_reason.send_if_modified(|cur| {
-                        if cur.is_none() {
-                            *cur = Some(DisconnectReason::IceDisconnected);
-                            true
-                        } else {
-                            false
-                        }
-                    });
-                    let _ = inner.peer_state.send(PeerConnectionState::Closed);
+                    // Run the full close path (tracks, channels, SCTP, DTLS):
+                    // merely flipping the state to Closed would turn a later
+                    // close() into a no-op.
+                    inner.close_with_reason(DisconnectReason::IceDisconnected);
                 }
                 return;
             }
@@ -4199,15 +4194,10 @@ async fn run_ice_dtls_loop(
             }
             crate::transports::ice::IceTransportState::Closed => {
                 if let Some(inner) = inner_weak.upgrade() {
-                    let _ = inner.disconnect_reason.send_if_modified(|cur| {
-                        if cur.is_none() {
-                            *cur = Some(DisconnectReason::IceDisconnected);
-                            true
-                        } else {
-                            false
-                        }
-                    });
-                    let _ = inner.peer_state.send(PeerConnectionState::Closed);
+                    // Run the full close path (tracks, channels, SCTP, DTLS):
+                    // merely flipping the state to Closed would turn a later
+                    // close() into a no-op.
+                    inner.close_with_reason(DisconnectReason::IceDisconnected);
                 }
                 return;
             }
@@ -5709,6 +5699,20 @@ impl PeerConnectionInner {
         // Close SCTP transport before closing DTLS/ICE to stop retransmission timers
         if let Some(sctp) = self.sctp_transport.lock().take() {
             sctp.close();
+        }
+        // Channels created before any SCTP transport existed are not reached by
+        // its cleanup guard: close them here so a pending recv() returns.
+        for weak_dc in self.data_channels.lock().iter() {
+            if let Some(dc) = weak_dc.upgrade() {
+                let old = dc.state.swap(
+                    crate::transports::sctp::DataChannelState::Closed as usize,
+                    Ordering::SeqCst,
+                );
+                if old != crate::transports::sctp::DataChannelState::Closed as usize {
+                    dc.send_event(crate::transports::sctp::DataChannelEvent::Close);
+                    dc.close_channel();
+                }
+            }
         }
 
         if let Some(dtls) = self.dtls_transport.lock().as_ref() {
